@@ -595,13 +595,15 @@ Proof.
   unfold cmp, cmpc. cbn [norm map]. rewrite cmpn_eq. cbn [rank len0 length cmpn_body lexz lexp]. rewrite !Z.compare_refl. cbn [thenc].
   rewrite thenc_Eq_r. reflexivity.
 Qed.
-Lemma cmp_xy_split a b u v : Forall scalar_nf a -> Forall scalar_nf b -> scalar_nf u -> scalar_nf v -> length a = length b ->
+Lemma cmp_tuple_gen a b : length a = length b -> cmp (VTuple a) (VTuple b) = c2z (lexz cmpn (map norm a) (map norm b)).
+Proof. intros L. unfold cmp, cmpc. cbn [norm]. rewrite cmpn_eq. cbn [rank len0 cmpn_body]. rewrite !map_length, L, !Z.compare_refl. reflexivity. Qed.
+(* for ANY values (NaN, containers ...): a tuple key with one more component compares 0 iff both parts do *)
+Lemma cmp_xy_split a b u v : length a = length b ->
   (cmp (VTuple (a ++ [u])) (VTuple (b ++ [v])) = 0 <-> cmp (VTuple a) (VTuple b) = 0 /\ cmp u v = 0).
 Proof.
-  intros Fa Fb Hu Hv L.
-  rewrite cmp_tuple_scalar by (try apply Forall_app; auto; rewrite !app_length; cbn; lia).
-  rewrite (cmp_tuple_scalar a b Fa Fb L), (cmp_scalar u v Hu Hv), !c2z_0.
-  unfold lexz. rewrite lexp_app by exact L. cbn [lexp]. rewrite thenc_Eq_r. apply thenc_Eq.
+  intros L. rewrite cmp_tuple_gen by (rewrite !app_length; cbn; lia). rewrite (cmp_tuple_gen a b L).
+  change (cmp u v) with (c2z (cmpn (norm u) (norm v))). rewrite !c2z_0, !map_app. cbn [map].
+  unfold lexz. rewrite lexp_app by (rewrite !map_length; exact L). cbn [lexp]. rewrite thenc_Eq_r. apply thenc_Eq.
 Qed.
 
 (* index_of: the first label == the value *)
@@ -634,7 +636,8 @@ Proof.
   - rewrite Forall_forall in *. intros z Hz. apply in_map_iff in Hz. destruct Hz as [b [<- Hb]]. apply H; auto. apply F. apply in_map. exact Hb.
 Qed.
 
-Definition xyshape (m : nat) (k : val) : Prop := exists a u, k = VTuple (a ++ [u]) /\ length a = m /\ Forall scalar_nf a /\ scalar_nf u.
+(* a key of xyz's first _listby: the x cells (ANY values) followed by the y cell, a NaN-free scalar (y2id is a dict: lookup by ==) *)
+Definition xyshape (m : nat) (k : val) : Prop := exists a u, k = VTuple (a ++ [u]) /\ length a = m /\ scalar_nf u.
 Definition pv_xys (KS : list val) : list val := map fst (listby_groups KS).
 Definition pv_ylabels (m : nat) (KS : list val) : list val :=
   map (fun gi : val * list nat => tuple_nth 0 (fst gi)) (listby_groups (map (fun xy => VTuple [tuple_nth m xy]) (pv_xys KS))).
@@ -670,27 +673,16 @@ Section Pivot.
   Let d : val * list nat := (VNone, []).
 
   Lemma pv_compatKS : eq_cmp_compat KS.
-  Proof.
-    apply scalar_keys_compat. eapply Forall_impl; [|exact HK]. intros k [a [u [-> [_ [Fa Hu]]]]]. exists (a ++ [u]). split; [reflexivity|].
-    apply Forall_app. split; [exact Fa | constructor; [exact Hu | constructor]].
-  Qed.
+  Proof. apply eq_cmp_compat_always. Qed.
   Lemma pv_xys_shape : Forall (xyshape m) xys.
   Proof.
     apply Forall_forall. intros k Hk. unfold xys, pv_xys in Hk. apply in_map_iff in Hk. destruct Hk as [g [<- Hg]].
     rewrite Forall_forall in HK. apply HK. apply listby_groups_rep_in. exact Hg.
   Qed.
   Lemma pv_compatXS : eq_cmp_compat XS.
-  Proof.
-    apply scalar_keys_compat. apply Forall_forall. intros k Hk. unfold XS in Hk. apply in_map_iff in Hk. destruct Hk as [xy [<- Hxy]].
-    pose proof pv_xys_shape as S. rewrite Forall_forall in S. destruct (S _ Hxy) as [a [u [-> [L [Fa Hu]]]]].
-    rewrite tuple_firstn_shape by exact L. exists a. split; auto.
-  Qed.
+  Proof. apply eq_cmp_compat_always. Qed.
   Lemma pv_compatYS : eq_cmp_compat YS.
-  Proof.
-    apply scalar_keys_compat. apply Forall_forall. intros k Hk. unfold YS in Hk. apply in_map_iff in Hk. destruct Hk as [xy [<- Hxy]].
-    pose proof pv_xys_shape as S. rewrite Forall_forall in S. destruct (S _ Hxy) as [a [u [-> [L [Fa Hu]]]]].
-    rewrite tuple_nth_shape by exact L. exists [u]. split; auto.
-  Qed.
+  Proof. apply eq_cmp_compat_always. Qed.
   Lemma pv_xys_nth j : (j < length G)%nat -> nth j xys VNone = fst (nth j G d) /\ In (nth j G d) G /\ xyshape m (nth j xys VNone).
   Proof.
     intros Hj. unfold xys, pv_xys. fold G. split; [apply (map_nth fst G d)|]. split; [apply nth_In; exact Hj|].
@@ -700,7 +692,7 @@ Section Pivot.
   Proof.
     apply Forall_forall. intros v Hv. unfold YL, pv_ylabels in Hv. apply in_map_iff in Hv. destruct Hv as [gy [<- Hgy]].
     apply listby_groups_rep_in in Hgy. fold xys in Hgy. apply in_map_iff in Hgy. destruct Hgy as [xy [<- Hxy]].
-    pose proof pv_xys_shape as S. rewrite Forall_forall in S. destruct (S _ Hxy) as [a [u [-> [L [Fa Hu]]]]].
+    pose proof pv_xys_shape as S. rewrite Forall_forall in S. destruct (S _ Hxy) as [a [u [-> [L Hu]]]].
     rewrite tuple_nth_shape by exact L. cbn. exact Hu.
   Qed.
   Lemma pv_YL_sorted : StronglySorted (fun a b => cmp a b < 0) YL.
@@ -714,22 +706,22 @@ Section Pivot.
 
   Lemma pv_LXS : length XS = length G.
   Proof. unfold XS, xys, pv_xys. rewrite !map_length. reflexivity. Qed.
-  Lemma pv_XSj j : (j < length G)%nat -> exists aj uj, nth j xys VNone = VTuple (aj ++ [uj]) /\ length aj = m /\ Forall scalar_nf aj /\ scalar_nf uj /\
+  Lemma pv_XSj j : (j < length G)%nat -> exists aj uj, nth j xys VNone = VTuple (aj ++ [uj]) /\ length aj = m /\ scalar_nf uj /\
                        nth j XS VNone = VTuple aj /\ tuple_nth m (nth j xys VNone) = uj.
   Proof.
-    intros Hj. destruct (pv_xys_nth j Hj) as [_ [_ [aj [uj [E [L [Fa Hu]]]]]]]. exists aj, uj. repeat split; auto.
+    intros Hj. destruct (pv_xys_nth j Hj) as [_ [_ [aj [uj [E [L Hu]]]]]]. exists aj, uj. repeat split; auto.
     - unfold XS. change VNone with (tuple_firstn m VNone) at 1. rewrite map_nth, E. apply tuple_firstn_shape. exact L.
     - rewrite E. apply tuple_nth_shape. exact L.
   Qed.
-  Lemma pv_KSi i : (i < length KS)%nat -> exists ai ui, nth i KS VNone = VTuple (ai ++ [ui]) /\ length ai = m /\ Forall scalar_nf ai /\ scalar_nf ui.
+  Lemma pv_KSi i : (i < length KS)%nat -> exists ai ui, nth i KS VNone = VTuple (ai ++ [ui]) /\ length ai = m /\ scalar_nf ui.
   Proof. intros Hi. rewrite Forall_forall in HK. apply (HK (nth i KS VNone)). apply nth_In. exact Hi. Qed.
   (* row i against the distinct (x, y) key number j *)
   Lemma pv_split i j : (i < length KS)%nat -> (j < length G)%nat ->
               (cmp (nth i KS VNone) (nth j xys VNone) = 0 <->
                cmp (tuple_firstn m (nth i KS VNone)) (nth j XS VNone) = 0 /\ cmp (tuple_nth m (nth i KS VNone)) (tuple_nth m (nth j xys VNone)) = 0).
   Proof.
-    intros Hi Hj. destruct (pv_KSi i Hi) as [ai [ui [Ei [Li [Fi Hui]]]]]. destruct (pv_XSj j Hj) as [aj [uj [Ej [Lj [Fj [Huj [EX EY]]]]]]].
-    rewrite EX, EY, Ei, Ej. rewrite tuple_firstn_shape, tuple_nth_shape by exact Li. apply cmp_xy_split; auto. lia.
+    intros Hi Hj. destruct (pv_KSi i Hi) as [ai [ui [Ei [Li Hui]]]]. destruct (pv_XSj j Hj) as [aj [uj [Ej [Lj [Huj [EX EY]]]]]].
+    rewrite EX, EY, Ei, Ej. rewrite tuple_firstn_shape, tuple_nth_shape by exact Li. apply cmp_xy_split. lia.
   Qed.
 
   Theorem pivot_cell_spec zs a gi k : In gi (pv_xg m KS) -> (k < length YL)%nat ->
@@ -755,7 +747,7 @@ Section Pivot.
     - apply find_some in FD. destruct FD as [Ij Mj]. apply in_rev in Ij.
       rewrite IDS in Ij. apply filter_In in Ij. destruct Ij as [Ij Cj]. apply in_seq in Ij. rewrite LXS in Ij. apply Z.eqb_eq in Cj.
       assert (Hj : (j < length G)%nat) by lia.
-      destruct (XSj j Hj) as [aj [uj [Ej [Lj [Fj [Huj [EX EY]]]]]]].
+      destruct (XSj j Hj) as [aj [uj [Ej [Lj [Huj [EX EY]]]]]].
       unfold mb in Mj. destruct (index_of (tuple_nth m (nth j xys VNone)) YL 0) as [k'|] eqn:IO; [|discriminate]. apply Nat.eqb_eq in Mj. subst k'.
       apply index_of_some in IO. destruct IO as [_ IO]. rewrite Nat.sub_0_r in IO. fold Y in IO. rewrite EY in IO.
       apply (elem_eqb_cmp Y uj HY Huj) in IO.
@@ -776,7 +768,7 @@ Section Pivot.
       apply in_flat_map in Ig. destruct Ig as [g [Hg Hig]]. destruct (In_nth _ _ d Hg) as [j [Hj Eg]].
       destruct (MEM _ Hg) as [_ Mg]. destruct (Mg i Hig) as [_ Cg]. rewrite <- Eg in Cg.
       destruct (pv_xys_nth j Hj) as [EF _]. rewrite <- EF in Cg. apply (SPLIT i j) in Cg; [|lia|exact Hj]. destruct Cg as [CgX CgY].
-      destruct (XSj j Hj) as [aj [uj [Ej [Lj [Fj [Huj [EX EY]]]]]]].
+      destruct (XSj j Hj) as [aj [uj [Ej [Lj [Huj [EX EY]]]]]].
       assert (Ij : In j (snd gi)).
       { rewrite IDS. apply filter_In. split; [apply in_seq; lia|]. apply Z.eqb_eq. apply (cmp0_trans _ (tuple_firstn m (nth i KS VNone))); [apply cmp0_sym; exact CgX | exact CX]. }
       assert (Mj : mb j = true).
@@ -802,7 +794,7 @@ Section Pivot.
     apply in_flat_map in Ig. destruct Ig as [g [Hg Hig]]. destruct (In_nth _ _ d Hg) as [j [Hj Eg]].
     destruct (MEM _ Hg) as [_ Mg]. destruct (Mg i Hig) as [_ Cg]. rewrite <- Eg in Cg.
     destruct (pv_xys_nth j Hj) as [EF _]. rewrite <- EF in Cg. apply (pv_split i j Hi Hj) in Cg. destruct Cg as [CgX CgY].
-    destruct (pv_XSj j Hj) as [aj [uj [Ej [Lj [Fj [Huj [EX EY]]]]]]].
+    destruct (pv_XSj j Hj) as [aj [uj [Ej [Lj [Huj [EX EY]]]]]].
     (* the x group of j *)
     assert (JX : In j (flat_map snd (pv_xg m KS))).
     { apply (Permutation_in _ (Permutation_sym (listby_groups_perm XS))). apply in_seq. rewrite pv_LXS. lia. }
@@ -831,28 +823,22 @@ Section Pivot.
 End Pivot.
 
 (* ---- on tables whose cells are NaN-free scalars *)
-Definition nf_table (t : table) : Prop := Forall (fun cv => Forall scalar_nf (snd cv)) t.
-Lemma lookup_scalar (r : arow) c : Forall (fun cv => scalar_nf (snd cv)) r -> scalar_nf (lookup r c).
-Proof. induction 1 as [|[c' v] r H _ IH]; cbn; auto. destruct (cmp_str c c'); auto. Qed.
-Lemma row_scalar t i : nf_table t -> Forall (fun cv => scalar_nf (snd cv)) (row t i).
+Lemma nth_scalar l i : Forall scalar_nf l -> scalar_nf (nth i l VNone).
 Proof.
-  intros H. unfold row. apply Forall_forall. intros cv Hcv. apply in_map_iff in Hcv. destruct Hcv as [[c vs] [<- Hc]]. cbn [snd].
-  unfold nf_table in H. rewrite Forall_forall in H. specialize (H _ Hc). cbn in H.
-  destruct (Nat.lt_ge_cases i (length vs)) as [Hi|Hi]; [|rewrite nth_overflow by exact Hi; exact I].
+  intros H. destruct (Nat.lt_ge_cases i (length l)) as [Hi|Hi]; [|rewrite nth_overflow by exact Hi; exact I].
   rewrite Forall_forall in H. apply H. apply nth_In. exact Hi.
 Qed.
 Lemma key_cols_xy x y r : key_cols (x ++ [y]) r = VTuple (map (lookup r) x ++ [lookup r y]).
 Proof. unfold key_cols. rewrite map_app. reflexivity. Qed.
-Lemma keys_xy_shape x y t : nf_table t -> Forall (xyshape (length x)) (keys_of (x ++ [y]) t).
+Lemma keys_xy_shape x y t : Forall scalar_nf (getcol t y) -> Forall (xyshape (length x)) (keys_of (x ++ [y]) t).
 Proof.
   intros H. apply Forall_forall. intros k Hk. unfold keys_of in Hk. apply in_map_iff in Hk. destruct Hk as [r [<- Hr]].
   unfold rows in Hr. apply in_map_iff in Hr. destruct Hr as [i [<- _]]. rewrite key_cols_xy.
   exists (map (lookup (row t i)) x), (lookup (row t i) y). split; [reflexivity|]. split; [apply map_length|].
-  pose proof (row_scalar t i H) as RS. split; [|apply lookup_scalar; exact RS].
-  apply Forall_forall. intros v Hv. apply in_map_iff in Hv. destruct Hv as [c [<- _]]. apply lookup_scalar. exact RS.
+  rewrite lookup_row. apply nth_scalar. exact H.
 Qed.
 
-Theorem pivot_cell_table x y z a t : nf_table t ->
+Theorem pivot_cell_table x y z a t : Forall scalar_nf (getcol t y) ->
   let KS := keys_of (x ++ [y]) t in let m := length x in let xg := pv_xg m KS in let YL := pv_ylabels m KS in let zs := getcol t z in
   pivot x y z a t = key_table x xg ++ map (fun kl => (label_of (snd kl), map (fun gi => pv_cell m KS zs a gi (fst kl)) xg)) (combine (seq 0 (length YL)) YL) /\
   StronglySorted (fun a b => cmp a b < 0) (map fst xg) /\ StronglySorted (fun a b => cmp a b < 0) YL /\
@@ -870,7 +856,7 @@ Proof.
   assert (PX : forall i, (i < nrows t)%nat -> tuple_firstn m (nth i KS VNone) = key_cols x (row t i) /\ tuple_nth m (nth i KS VNone) = lookup (row t i) y).
   { intros i Hi. unfold KS, keys_of. rewrite nth_keys by exact Hi. rewrite key_cols_xy.
     rewrite tuple_firstn_shape, tuple_nth_shape by apply map_length. split; reflexivity. }
-  split; [apply pivot_unfold|]. split; [apply (pv_xg_sorted m KS HK)|]. split; [apply (pv_YL_sorted m KS HK)|]. split.
+  split; [apply pivot_unfold|]. split; [apply (pv_xg_sorted m KS)|]. split; [apply (pv_YL_sorted m KS)|]. split.
   - intros gi k Hgi Hk. rewrite (pivot_cell_spec m KS HK zs a gi k Hgi Hk). rewrite LK.
     erewrite filter_ext_in; [reflexivity|]. intros i Hi. apply in_seq in Hi. destruct (PX i ltac:(lia)) as [-> ->]. reflexivity.
   - intros i Hi. destruct (pivot_row_has_cell m KS HK i ltac:(lia)) as [gi [k [A [B [C D]]]]]. destruct (PX i Hi) as [E1 E2]. rewrite E1 in C. rewrite E2 in D.
@@ -945,7 +931,7 @@ Proof.
 Qed.
 
 (* with unique (x, y) pairs every pivot cell is empty or holds the z of its one row *)
-Theorem pivot_cell_unique x y z a t : nf_table t -> (a = ALast \/ a = AFirst) ->
+Theorem pivot_cell_unique x y z a t : Forall scalar_nf (getcol t y) -> (a = ALast \/ a = AFirst) ->
   (forall i i', (i < nrows t)%nat -> (i' < nrows t)%nat ->
      cmp (key_cols (x ++ [y]) (row t i)) (key_cols (x ++ [y]) (row t i')) = 0 -> i = i') ->
   let KS := keys_of (x ++ [y]) t in let m := length x in let xg := pv_xg m KS in let YL := pv_ylabels m KS in let zs := getcol t z in
@@ -960,9 +946,7 @@ Proof.
   assert (FM : forall i, f i = true <-> matches i). { intros i. unfold f, matches. rewrite andb_true_iff, !Z.eqb_eq. tauto. }
   assert (UM : forall i i', (i < nrows t)%nat -> (i' < nrows t)%nat -> matches i -> matches i' -> i = i').
   { intros i i' Hi Hi' [A B] [A' B']. apply U; auto. rewrite !key_cols_xy.
-    pose proof (row_scalar t i H) as R1. pose proof (row_scalar t i' H) as R2.
-    apply cmp_xy_split; try (apply lookup_scalar; auto); try (rewrite !map_length; reflexivity);
-      try (apply Forall_forall; intros v Hv; apply in_map_iff in Hv; destruct Hv as [c [<- _]]; apply lookup_scalar; auto).
+    apply cmp_xy_split; [rewrite !map_length; reflexivity|].
     split; [apply (cmp0_trans _ (fst gi)); [exact A | apply cmp0_sym; exact A'] | apply (cmp0_trans _ (nth k YL VNone)); [exact B | apply cmp0_sym; exact B']]. }
   pose proof (ssorted_filter _ f _ (seq_ssorted (nrows t) 0%nat)) as SS.
   destruct (filter f (seq 0 (nrows t))) as [|i R'] eqn:ER.
@@ -978,3 +962,157 @@ Proof.
     subst R'. split; [destruct Ha as [-> | ->]; reflexivity|].
     intros i' Hi' Mi'. symmetry. apply UM; auto. lia.
 Qed.
+(* ================================================================== unpivot . pivot as a Permutation of (x, y label, z) rows *)
+Definition is_none (v : val) : bool := match v with VNone => true | _ => false end.
+Definition z_some (tr : val * val * val) : bool := negb (is_none (snd tr)).
+(* the (x key, y rendered as column label, z) rows of a table *)
+Definition t_triples (x : list colname) (y z : colname) (t : table) : list (val * val * val) :=
+  map (fun i => (key_cols x (row t i), VStr (label_of (lookup (row t i) y)), nth i (getcol t z) VNone)) (seq 0 (nrows t)).
+(* the rows of unpivot(pivot): one per (x group, y label), row-major *)
+Definition u_triples (m : nat) (KS zs : list val) (a : agg) : list (val * val * val) :=
+  flat_map (fun gi => map (fun k => (fst gi, VStr (label_of (nth k (pv_ylabels m KS) VNone)), pv_cell m KS zs a gi k)) (seq 0 (length (pv_ylabels m KS)))) (pv_xg m KS).
+
+Lemma NoDup_app' {X} (l1 l2 : list X) : NoDup l1 -> NoDup l2 -> (forall e, In e l1 -> In e l2 -> False) -> NoDup (l1 ++ l2).
+Proof.
+  induction l1 as [|a l1 IH]; cbn; auto. intros N1 N2 D. inversion N1; subst. constructor.
+  - intros Hin. apply in_app_or in Hin. destruct Hin; [contradiction | apply (D a); auto].
+  - apply IH; auto. intros e He1 He2. apply (D e); auto.
+Qed.
+Lemma NoDup_map_in {X Y} (f : X -> Y) l : NoDup l -> (forall a b, In a l -> In b l -> f a = f b -> a = b) -> NoDup (map f l).
+Proof.
+  induction 1 as [|a l Ha N IH]; cbn; intros Inj; constructor.
+  - intros Hin. apply in_map_iff in Hin. destruct Hin as [b [E Hb]]. assert (b = a) by (apply Inj; auto). subst. contradiction.
+  - apply IH. intros; apply Inj; auto.
+Qed.
+Lemma NoDup_flat_map_key {X Y Z} (f : X -> list Y) (g : Y -> Z) (h : X -> Z) l :
+  NoDup (map h l) -> (forall a, In a l -> NoDup (f a)) -> (forall a e, In a l -> In e (f a) -> g e = h a) -> NoDup (flat_map f l).
+Proof.
+  induction l as [|a l IH]; cbn; intros N F K; [constructor|]. inversion N; subst. apply NoDup_app'.
+  - apply F. auto.
+  - apply IH; auto.
+  - intros e He1 He2. apply in_flat_map in He2. destruct He2 as [b [Hb He]]. apply H1.
+    rewrite <- (K a e) by auto. rewrite (K b e) by auto. apply in_map. exact Hb.
+Qed.
+Lemma ssorted_cmp_nodup l : StronglySorted (fun a b => cmp a b < 0) l -> NoDup l.
+Proof.
+  induction 1; constructor; auto. intros Hin. rewrite Forall_forall in H0. specialize (H0 _ Hin). rewrite cmp_refl in H0. lia.
+Qed.
+Lemma map_const_seq {X} (c : X) : forall n s, map (fun _ => c) (seq s n) = repeat c n.
+Proof. induction n; intros s; cbn; auto. rewrite IHn. reflexivity. Qed.
+
+(* group keys and labels are cells of actual rows *)
+Lemma pv_xg_rep m KS gi : In gi (pv_xg m KS) -> exists k0, In k0 KS /\ fst gi = tuple_firstn m k0.
+Proof.
+  intros H. apply listby_groups_rep_in in H. apply in_map_iff in H. destruct H as [xy [E Hxy]]. unfold pv_xys in Hxy.
+  apply in_map_iff in Hxy. destruct Hxy as [g [<- Hg]]. exists (fst g). split; [apply listby_groups_rep_in; exact Hg | symmetry; exact E].
+Qed.
+Lemma pv_YL_rep m KS v : In v (pv_ylabels m KS) -> exists k0, In k0 KS /\ v = tuple_nth m k0.
+Proof.
+  intros H. unfold pv_ylabels in H. apply in_map_iff in H. destruct H as [gy [<- Hgy]]. apply listby_groups_rep_in in Hgy.
+  apply in_map_iff in Hgy. destruct Hgy as [xy [<- Hxy]]. unfold pv_xys in Hxy. apply in_map_iff in Hxy. destruct Hxy as [g [<- Hg]].
+  exists (fst g). split; [apply listby_groups_rep_in; exact Hg | reflexivity].
+Qed.
+Lemma keys_of_row x y t k0 : In k0 (keys_of (x ++ [y]) t) -> exists i, (i < nrows t)%nat /\
+  tuple_firstn (length x) k0 = key_cols x (row t i) /\ tuple_nth (length x) k0 = lookup (row t i) y.
+Proof.
+  intros H. unfold keys_of in H. apply in_map_iff in H. destruct H as [r [<- Hr]]. unfold rows in Hr. apply in_map_iff in Hr.
+  destruct Hr as [i [<- Hi]]. apply in_seq in Hi. exists i. split; [lia|]. rewrite key_cols_xy.
+  rewrite tuple_firstn_shape, tuple_nth_shape by apply map_length. split; reflexivity.
+Qed.
+
+Section Perm.
+  Variables (x : list colname) (y z : colname) (a : agg) (t : table).
+  Hypothesis Hx : x <> [].
+  Hypothesis NDx : NoDup x.
+  Hypothesis Hy : Forall scalar_nf (getcol t y).
+  Hypothesis Ha : a = ALast \/ a = AFirst.
+  Hypothesis U : forall i i', (i < nrows t)%nat -> (i' < nrows t)%nat ->
+     cmp (key_cols (x ++ [y]) (row t i)) (key_cols (x ++ [y]) (row t i')) = 0 -> i = i'.
+  Hypothesis ZN : forall i, (i < nrows t)%nat -> nth i (getcol t z) VNone <> VNone.
+  (* == x keys / y values are identical (no 1 next to 1.0, one NaN object), and different y values have different labels *)
+  Hypothesis EXx : forall i i', (i < nrows t)%nat -> (i' < nrows t)%nat ->
+     cmp (key_cols x (row t i)) (key_cols x (row t i')) = 0 -> key_cols x (row t i) = key_cols x (row t i').
+  Hypothesis EXy : forall i i', (i < nrows t)%nat -> (i' < nrows t)%nat ->
+     cmp (lookup (row t i) y) (lookup (row t i') y) = 0 -> lookup (row t i) y = lookup (row t i') y.
+  Hypothesis LI : forall i i', (i < nrows t)%nat -> (i' < nrows t)%nat ->
+     label_of (lookup (row t i) y) = label_of (lookup (row t i') y) -> lookup (row t i) y = lookup (row t i') y.
+  Let KS := keys_of (x ++ [y]) t.
+  Let m := length x.
+  Let xg := pv_xg m KS.
+  Let YL := pv_ylabels m KS.
+  Let zs := getcol t z.
+
+  Lemma perm_xrep gi : In gi xg -> exists i, (i < nrows t)%nat /\ fst gi = key_cols x (row t i).
+  Proof.
+    intros H. destruct (pv_xg_rep m KS gi H) as [k0 [Hk E]]. destruct (keys_of_row x y t k0 Hk) as [i [Hi [E1 _]]].
+    exists i. split; [exact Hi|]. rewrite E. exact E1.
+  Qed.
+  Lemma perm_yrep k : (k < length YL)%nat -> exists i, (i < nrows t)%nat /\ nth k YL VNone = lookup (row t i) y.
+  Proof.
+    intros H. destruct (pv_YL_rep m KS (nth k YL VNone) (nth_In _ _ H)) as [k0 [Hk E]]. destruct (keys_of_row x y t k0 Hk) as [i [Hi [_ E2]]].
+    exists i. split; [exact Hi|]. rewrite E. exact E2.
+  Qed.
+
+  Lemma t_triples_nodup : NoDup (t_triples x y z t).
+  Proof.
+    unfold t_triples. apply NoDup_map_in; [apply seq_NoDup|]. intros i i' Hi Hi' E. apply in_seq in Hi, Hi'. inversion E as [[E1 E2 E3]].
+    apply U; try lia. rewrite !key_cols_xy. apply cmp_xy_split; [rewrite !map_length; reflexivity|].
+    rewrite E1. split; [apply cmp_refl|].
+    rewrite (LI i i') by (auto; lia). apply cmp_refl.
+  Qed.
+  Lemma YL_label_inj k k' : (k < length YL)%nat -> (k' < length YL)%nat ->
+    label_of (nth k YL VNone) = label_of (nth k' YL VNone) -> k = k'.
+  Proof.
+    intros Hk Hk' E. destruct (perm_yrep k Hk) as [i [Hi Ei]]. destruct (perm_yrep k' Hk') as [i' [Hi' Ei']].
+    rewrite Ei, Ei' in E. apply LI in E; auto. rewrite <- Ei, <- Ei' in E.
+    pose proof (ssorted_cmp_nodup YL (pv_YL_sorted m KS)) as ND. apply (proj1 (NoDup_nth YL VNone) ND); auto.
+  Qed.
+  Lemma u_triples_nodup : NoDup (u_triples m KS zs a).
+  Proof.
+    unfold u_triples. fold xg. fold YL.
+    apply (NoDup_flat_map_key _ (fun tr : val * val * val => fst (fst tr)) (fun gi : val * list nat => fst gi)).
+    - apply ssorted_cmp_nodup. apply (pv_xg_sorted m KS).
+    - intros gi _. apply NoDup_map_in; [apply seq_NoDup|]. intros k k' Hk Hk' E. apply in_seq in Hk, Hk'. inversion E as [[E1 E2]].
+      apply YL_label_inj; auto; lia.
+    - intros gi e _ He. apply in_map_iff in He. destruct He as [k [<- _]]. reflexivity.
+  Qed.
+
+  Theorem unpivot_pivot_perm : Permutation (filter z_some (u_triples m KS zs a)) (t_triples x y z t).
+  Proof.
+    apply NoDup_Permutation; [apply NoDup_filter, u_triples_nodup | apply t_triples_nodup|].
+    pose proof (pivot_cell_unique x y z a t Hy Ha U) as PU. cbv zeta in PU. fold KS m xg YL zs in PU.
+    destruct (pivot_cell_table x y z a t Hy) as [_ [_ [_ [_ HC]]]]. fold KS m xg YL zs in HC.
+    intros tr. split.
+    - intros H. apply filter_In in H. destruct H as [H ZS]. unfold u_triples in H. fold xg YL in H. apply in_flat_map in H. destruct H as [gi [Hgi H]].
+      apply in_map_iff in H. destruct H as [k [<- Hk]]. apply in_seq in Hk. assert (Hk' : (k < length YL)%nat) by lia.
+      destruct (PU gi k Hgi Hk') as [[EN _]|[i [Hi [[MX MY] [Ei _]]]]].
+      + unfold z_some in ZS. cbn [snd] in ZS. rewrite EN in ZS. discriminate.
+      + unfold t_triples. apply in_map_iff. exists i. split; [|apply in_seq; lia].
+        destruct (perm_xrep gi Hgi) as [i1 [Hi1 E1]]. destruct (perm_yrep k Hk') as [i2 [Hi2 E2]].
+        rewrite E1 in MX |- *. rewrite E2 in MY |- *. rewrite (EXx i i1 Hi Hi1 MX), (EXy i i2 Hi Hi2 MY). fold zs. rewrite Ei. reflexivity.
+    - intros H. unfold t_triples in H. apply in_map_iff in H. destruct H as [i [<- Hi]]. apply in_seq in Hi. assert (Hi' : (i < nrows t)%nat) by lia.
+      destruct (HC i Hi') as [gi [k [Hgi [Hk [MX MY]]]]].
+      assert (EC : pv_cell m KS zs a gi k = nth i zs VNone).
+      { destruct (PU gi k Hgi Hk) as [[_ L]|[i0 [Hi0 [Mi0 [Ei0 Ui0]]]]]; [exfalso; apply (L i Hi'); split; assumption|].
+        rewrite Ei0. f_equal. symmetry. apply Ui0; [exact Hi' | split; assumption]. }
+      destruct (perm_xrep gi Hgi) as [i1 [Hi1 E1]]. destruct (perm_yrep k Hk) as [i2 [Hi2 E2]].
+      apply filter_In. split.
+      + unfold u_triples. fold xg YL. apply in_flat_map. exists gi. split; [exact Hgi|]. apply in_map_iff. exists k. split; [|apply in_seq; lia].
+        rewrite EC. rewrite E1 in MX |- *. rewrite E2 in MY |- *. rewrite (EXx i i1 Hi' Hi1 MX), (EXy i i2 Hi' Hi2 MY). reflexivity.
+      + unfold z_some. cbn [snd]. fold zs. pose proof (ZN i Hi') as NZ. fold zs in NZ. destruct (nth i zs VNone); try reflexivity. congruence.
+  Qed.
+
+  (* and these triples are the rows of the unpivoted table, column by column *)
+  Theorem unpivot_pivot_columns : Forall (fun l => in_names (label_of l) x = false) YL ->
+    unpivot x y z (pivot x y z a t) =
+    map (fun jc => (snd jc, map (fun tr : val * val * val => tuple_nth (fst jc) (fst (fst tr))) (u_triples m KS zs a))) (combine (seq 0 (length x)) x)
+    ++ [(y, map (fun tr : val * val * val => snd (fst tr)) (u_triples m KS zs a)); (z, map (fun tr : val * val * val => snd tr) (u_triples m KS zs a))].
+  Proof.
+    intros NC. rewrite (unpivot_pivot_table x y z a t Hx NDx NC). fold KS m xg YL zs. unfold u_triples. fold xg YL.
+    f_equal; [apply map_ext; intros [j c]; cbn [fst snd]; f_equal | f_equal; [|f_equal]; f_equal].
+    - rewrite map_flat_map. apply flat_map_ext_in'. intros gi _. rewrite map_map. cbn [fst]. symmetry. apply map_const_seq.
+    - rewrite map_flat_map. apply flat_map_ext_in'. intros gi _. rewrite map_map. cbn [fst snd].
+      rewrite <- (map_nth_seq VNone YL 0%nat) at 1. rewrite map_map. apply map_ext. intros k. rewrite Nat.sub_0_r. reflexivity.
+    - rewrite map_flat_map. apply flat_map_ext_in'. intros gi _. rewrite map_map. reflexivity.
+  Qed.
+End Perm.
